@@ -657,7 +657,7 @@ theorem runProgram_sound (P : Prog) (O : Oracle) (top : CallStm) (n : Nat)
           .ok ({ self := [], calls := [(top.id, top.sig sh)] }, { self := [], calls := [(top.id, out)] }) ∧
         valid (top.sig sh).whole out = true) := by
   simp only [progOk, Bool.and_eq_true, List.all_eq_true] at hP
-  obtain ⟨⟨⟨hpipes, _⟩, htop⟩, _⟩ := hP
+  obtain ⟨⟨⟨⟨hpipes, _⟩, htop⟩, _⟩, _⟩ := hP
   cases hchk : checkStm emptyEnv top with
   | none => simp [hchk] at htop
   | some sh =>
